@@ -161,3 +161,14 @@ CLAIMS["C28"] = (
     "through SetsAlg) is evaluated on the recipe and on the dumped simplified formula at 25 assignments realising "
     "every cell of the atoms: a complete truth table over the atoms' cells",
     "6/C28", TRUSTED, "TLA+ truth-table semantics + TLC trace validation")
+
+CLAIMS["C21"] = (
+    "model_checking",
+    "TLC checks the transcription of UIntDict::mul (Kronecker substitution with signed-digit decoding, modelled on "
+    "base-2^N digit sequences) against schoolbook multiplication for all pairs of bounded integer polynomials (the "
+    "pre-repair digit width must be refuted), enumerates pairs of integer- and rational-coefficient lists "
+    "(all small pairs incl. the zero polynomial and constants, seeded larger ones, squares) and validates every "
+    "recorded operation (from_vec, add, sub, mul, neg, pow, diff, eval, degree, divides with quotient, as_symbolic / "
+    "from_basic round trip, from_basic of a product) against the schoolbook arithmetic of module Poly",
+    "6/C21", TRUSTED + "; UExprPoly and multi-limb coefficients are not covered yet",
+    "TLA+ transcription checked by TLC + schoolbook oracle in TLA+ + TLC trace validation")
